@@ -6,6 +6,7 @@
 (* followed by the runs of the real binaries on THAT dump:                 *)
 (*    {"e":"find",  q, args, rc, out}      one obifind command line        *)
 (*    {"e":"annot", opts, recs, rc, obs}   one obiannotate run             *)
+(*    {"e":"lca", slot, E, recs, rc, obs}  obiannotate --add-lca-in        *)
 (* Every run is judged by FindVerdict / AnnotVerdict of TaxFind.tla against*)
 (* the taxonomy loaded last.  One behaviour per taxonomy.                  *)
 (***************************************************************************)
@@ -31,6 +32,9 @@ Verdict(T, e) ==
   ELSE IF e.e = "annot" THEN
      IF e.rc = 0 /\ e.err # "" THEN "output not decoded"
      ELSE AnnotVerdict(T, e.opts, e.recs, e.rc, e.obs)
+  ELSE IF e.e = "lca" THEN
+     IF e.rc = 0 /\ e.err # "" THEN "output not decoded"
+     ELSE LcaVerdict(T, e.slot, e.E, e.recs, e.rc, e.obs)
   ELSE "bad-input"
 
 Init == /\ l \in { i \in 1..Len(Trace) : Trace[i].e = "load" }
